@@ -15,6 +15,11 @@ from vfw.exactlp import LP, frac
 BUILD_PATHS = ["bulk", "one_by_one", "mets_first", "mets_implicit_ids", "switch_after", "switch_twice",
                "copied", "pickled", "optimized_first", "context_churn"]
 _OTHER = {"glpk": "glpk_exact", "glpk_exact": "glpk"}
+# additional paths for checks that do not audit the solver content row by row: "free_row_early" puts an unbounded row over
+# a variable fixed at zero into the problem after the first metabolite (the mass balances are then not the leading rows of
+# the LP; the LP itself is unchanged); "lists_reordered" reverses model.metabolites and sorts model.reactions descending
+# after the build (list order differs from row/column order).
+BUILD_PATHS_LP = BUILD_PATHS + ["free_row_early", "lists_reordered"]
 
 
 def reset_globals():
@@ -66,6 +71,13 @@ def build_model(spec, path: str = "bulk", set_solver: bool = True):
     mets = {m["id"]: make_metabolite(m) for m in spec["mets"]}
     if path in ("mets_first", "mets_implicit_ids"):
         model.add_metabolites(list(mets.values()))
+    if path == "free_row_early":
+        first = list(mets.values())[:1]
+        if first:
+            model.add_metabolites(first)
+        var = model.problem.Variable("free_var", lb=0, ub=0)
+        model.add_cons_vars([var, model.problem.Constraint(var, lb=None, ub=None, name="free_row")])
+        model.add_metabolites(list(mets.values())[1:])
     rxns = [make_reaction(r, mets) for r in spec["rxns"]]
     if path == "one_by_one":
         for rx in rxns:
@@ -109,6 +121,9 @@ def build_model(spec, path: str = "bulk", set_solver: bool = True):
     elif set_solver and path == "switch_twice":
         model.solver = _OTHER[want]
         model.solver = want
+    elif path == "lists_reordered":
+        model.metabolites.reverse()
+        model.reactions.sort(key=lambda r: r.id, reverse=True)
     elif path == "copied":
         model = model.copy()
     elif path == "pickled":
